@@ -15,6 +15,7 @@ R2 surrogate: the derivative equals that of the documented surrogate
 R3 the *_through helpers have forward value op(x) and derivative 1.
 R4 data-dependent scales are detached (no d_reduce_* atom in a derivative).
 """
+import itertools
 from fractions import Fraction as F
 
 from ..loader import AnalysisError
@@ -213,7 +214,24 @@ def run(rep, repo, tier):
   check_through_helpers(rep, repo, mod)
   n = 0
   seen_cls = set()
-  for cls, kw in qref.lattice_all(tier):
+  def steep_slopes():
+    # leaky slopes the constructors accept beyond the usual 2**-k < 1
+    fs = qref.f_tensor()
+    for slope, ste in itertools.product((F(2), F(4), F(1), F(1, 2)),
+                                        (True, False)):
+      for clipmode in ("qclip", "ub", "none"):
+        kw = dict(bits=4, integer=1, negative_slope=slope, use_ste=ste,
+                  qnoise_factor=fs)
+        if clipmode == "ub":
+          kw.update(is_quantized_clip=False, relu_upper_bound=F(3, 2))
+        elif clipmode == "none":
+          kw.update(is_quantized_clip=False, relu_upper_bound=None)
+        yield "quantized_relu", kw
+      for mv in (None, F(4)):
+        yield "quantized_relu_po2", dict(
+            bits=4, max_value=mv, negative_slope=slope, use_ste=ste,
+            qnoise_factor=fs)
+  for cls, kw in itertools.chain(qref.lattice_all(tier), steep_slopes()):
     if cls == "bernoulli":
       continue   # documented always-random; not in the property
     phases = ["infer"]
